@@ -109,16 +109,19 @@ theorem scanEmitHint_sim (F : Frame inpS inpW δ) (hops : OpsSim env.ops inpS in
     rw [hr2]
     generalize (if ie = true then env.ops.endTagHint name xs.sink else env.ops.startTagHint name xs.sim.currentNs xs.sink).2 = r
     match r with
-    | .error e => exact Or.inr ⟨rfl, fun hh => by rcases hh with hh | hh <;> cases hh⟩
+    | .error e => exact Or.inr ⟨rfl, (fun hh => by rcases hh with hh | hh <;> cases hh), fun _ _ hh => by cases hh⟩
     | .ok .scan =>
-      refine Or.inr ⟨trivial, fun _ => ⟨⟨hc', ?_, hsim, hpc⟩, hK'⟩⟩
+      refine Or.inr ⟨trivial, fun _ => ⟨⟨hc', ?_, hsim, hpc⟩, hK'⟩, fun _ _ hh => by cases hh⟩
       show 0 = 0 ∧ ScanRel δ ab' _ ss sw ∧ SeqRel δ _ .none ss.chSeqStart sw.chSeqStart
       rw [hnp']
       exact ⟨rfl, hs, hq1, hq2⟩
     | .ok .lex =>
-      refine Or.inr ⟨⟨rfl, ?_⟩, fun hh => by rcases hh with hh | hh <;> cases hh⟩
-      refine ⟨hc'.cdataAllowed, hc'.lastTextType, hc'.lastStartTagNameHash, rfl, ?_⟩
-      simp only [mkBookmark, scanTakeFeedbackDirective, hs.pend]
+      refine Or.inr ⟨⟨rfl, ?_⟩, (fun hh => by rcases hh with hh | hh <;> cases hh), fun _ _ _ => ⟨ab', ⟨hc', ?_, hsim, hpc⟩, hK'⟩⟩
+      · refine ⟨hc'.cdataAllowed, hc'.lastTextType, hc'.lastStartTagNameHash, rfl, ?_⟩
+        simp only [mkBookmark, scanTakeFeedbackDirective, hs.pend]
+      · dsimp only
+        rw [hnp']
+        exact ⟨rfl, { hs with pend := rfl, hash := rfl }, hq1, hq2⟩
 
 theorem scanFinishTagName_sim (F : Frame inpS inpW δ) (hops : OpsSim env.ops inpS inpW δ K) {ab ab' : Ab}
     {cs cw : Common} {ss sw : ScanRegs} {xs xw : Ctx κ} (h : ScanPre δ K ab cs cw ss sw xs xw)
@@ -131,7 +134,7 @@ theorem scanFinishTagName_sim (F : Frame inpS inpW δ) (hops : OpsSim env.ops in
   cases htS : ss.tagStart with
   | none =>
     rw [optRel_none_l hts htS]
-    exact Or.inr ⟨rfl, fun hh => by rcases hh with hh | hh <;> cases hh⟩
+    exact Or.inr ⟨rfl, (fun hh => by rcases hh with hh | hh <;> cases hh), fun _ _ hh => by cases hh⟩
   | some ts =>
     obtain ⟨tw, htW, hrel⟩ := optRel_some_l hts htS
     rw [htW]
@@ -146,7 +149,7 @@ theorem scanFinishTagName_sim (F : Frame inpS inpW δ) (hops : OpsSim env.ops in
     generalize (if ss.isInEndTag = true then xs.sim.feedbackForEndTag env.cfg ss.tagNameHash
       else xs.sim.feedbackForStartTag env.cfg ss.tagNameHash) = fb
     match fb with
-    | .error e => exact Or.inr ⟨rfl, fun hh => by rcases hh with hh | hh <;> cases hh⟩
+    | .error e => exact Or.inr ⟨rfl, (fun hh => by rcases hh with hh | hh <;> cases hh), fun _ _ hh => by cases hh⟩
     | .ok (sim', f) =>
       have hs' : ∀ g : Option TextType → Option TextType, ScanRel δ ab' cs.nextPos
           { ss with tagStart := none, pendingTextTypeChange := g ss.pendingTextTypeChange, isInEndTag := false }
@@ -169,8 +172,9 @@ theorem scanFinishTagName_sim (F : Frame inpS inpW δ) (hops : OpsSim env.ops in
           { h.c with cdataAllowed := rfl } (by show 1 ≤ cs.nextPos; omega) (hs' id) htns h.seqS h.seqW hx h.pc h.k
       | requestLexeme k =>
         simp only [scanApplyFeedback]
-        refine Or.inr ⟨⟨rfl, ?_⟩, fun hh => by rcases hh with hh | hh <;> cases hh⟩
-        exact ⟨h.c.cdataAllowed, h.c.lastTextType, h.c.lastStartTagNameHash, rfl, rfl⟩
+        refine Or.inr ⟨⟨rfl, ?_⟩, (fun hh => by rcases hh with hh | hh <;> cases hh), fun _ _ _ => ⟨ab', ⟨h.c, ?_, hx, h.pc⟩, h.k⟩⟩
+        · exact ⟨h.c.cdataAllowed, h.c.lastTextType, h.c.lastStartTagNameHash, rfl, rfl⟩
+        · exact ⟨rfl, hs' id, h.seqS, h.seqW⟩
       | none =>
         simp only [scanApplyFeedback]
         exact scanEmitHint_sim (ab' := ab') (xs := { xs with sim := sim' }) (xw := { xw with sim := sim' }) F hops ts
